@@ -64,6 +64,13 @@ def make_model(shape, base, field, Hh):
         cls = type(base.__name__ + "_prop", (base,), dict(ns, **{field: property(fget, fset)}))
     elif shape == "falsy-list":
         cls = type(base.__name__ + "_list", (base, list) if base is not object else (list,), ns)
+    elif shape == "falsy-dict":
+        # a mapping that keeps its state in a normal attribute (think dict / UserDict based domain objects; empty = falsy)
+        cls = type(base.__name__ + "_dict", (base, dict) if base is not object else (dict,), ns)
+    elif shape == "userdict":
+        import collections
+
+        cls = type(base.__name__ + "_udict", (base, collections.UserDict) if base is not object else (collections.UserDict,), ns)
     elif shape == "len0":
         cls = type(base.__name__ + "_len0", (base,), dict(ns, __len__=lambda self: 0))
     elif shape == "bool-false":
@@ -460,7 +467,8 @@ class Play:
             ctx = await self.construct(old.name, model=model, Hh=old.H, state0=state0)
         finally:
             self._fresh_model = False
-        ctx.extra.update({k: v for k, v in old.extra.items() if k == "user_model"})
+        if not step.get("fresh"):
+            ctx.extra.update({k: v for k, v in old.extra.items() if k == "user_model"})
         if state0 is not None:
             now = getattr(model, self.field, None)
             if now is not stored and repr(now) != repr(stored):
